@@ -90,7 +90,7 @@ class Gen:
         if self.hostile() and self.r.random() < 0.5:
             # not an index at all (the result of a true division, a string, an int beyond any list), or out of range
             self.w.count("hostile.position")
-            return self.r.choice([1.5, float(n), "0", 10 ** 30, -1, n + 7, -(n + 7)])
+            return self.r.choice([1.5, float(n), "0", 10 ** 30, -(10 ** 30), -1, n + 7, -(n + 7)])
         return self.r.randint(0, n)
 
     def hd(self, obj):
@@ -315,6 +315,12 @@ class Gen:
                     continue
                 kind = "proxy" if self.r.random() < self.cfg["proxy_rate"] else "stored"
                 out.append(({"k": kind, "i": ih, "p": ph}, op))
+        visible = [x[1] for x in self.all("instance")]
+        for name, px in sorted(getattr(self.w, "proxies", {}).items()):
+            inst, ip = px.instance, px.inner_pin
+            if inst is not None and ip is not None and ip in inst.pins and any(inst is v for v in visible):
+                for _ in range(3):      # (held proxies are few: give them weight among the candidates)
+                    out.append(({"k": "heldproxy", "h": name}, inst.pins[ip]))
         return out
 
     def _ref_for(self, pin):
@@ -548,6 +554,9 @@ class Gen:
             return None
         ip = self.r.choice(list(i[1].pins.keys()))
         ph = self.hd(ip)
+        if ph and self.r.random() < 0.5 and len(getattr(self.w, "proxies", {})) < 4:
+            # a proxy object built once and used for several calls (connect with it, disconnect with it ...)
+            return {"op": "hold_proxy", "inst": i[0], "ipin": ph, "name": "px%d" % len(self.w.proxies)}
         return ph and {"op": "hold_opin", "inst": i[0], "ipin": ph}
 
     # -- names and data ---------------------------------------------------------------
